@@ -192,9 +192,10 @@ class solve_torchfcn(torch.autograd.Function):
             with ctx.A.uselinopparams(*params):
                 loss = -ctx.A.mm(x)  # (*BABEM, nr, ncols)
 
+        # (an operator without tensor parameters has nothing to differentiate)
         grad_params = torch.autograd.grad((loss,), params, grad_outputs=(v,),
                                           create_graph=torch.is_grad_enabled(),
-                                          allow_unused=True)
+                                          allow_unused=True) if len(params) > 0 else ()
 
         # calculate the biases gradient
         grad_E = None
@@ -210,7 +211,7 @@ class solve_torchfcn(torch.autograd.Function):
 
         # calculate the gradient to the biases matrices
         grad_mparams = []
-        if ctx.M is not None and E is not None:
+        if ctx.M is not None and E is not None and len(mparams) > 0:
             with torch.enable_grad():
                 mparams = [p.clone().requires_grad_() for p in mparams]
                 lmbdax = x * E.unsqueeze(-2)
